@@ -38,7 +38,7 @@ theorem take_panics (n : Int) (s : Slice) (v : Valid h s) (hn : s.len < n.toNat)
 theorem skip_spec (n : Int) (s : Slice) (v : Valid h s) (hn : 0 ≤ n) :
     Post h (Skip g h n s) ((read h s).drop n.toNat) := Skip_post g h n s v hn
 theorem skip_negative (n : Int) (s : Slice) (hn : n < 0) :
-    Skip g h n s = if s.len = 0 then .ok (.nil, h) else .error .index := Skip_neg g h n s hn
+    Skip g h n s = .error .index := Skip_neg g h n s hn
 
 /-- Take n ++ Skip n = the slice, for `0 ≤ n ≤ len` -/
 theorem take_append_skip (n : Int) (s : Slice) (v : Valid h s) (h0 : 0 ≤ n) (hn : n.toNat ≤ s.len) :
